@@ -6,6 +6,9 @@ HOOKS = {
     "add_only": True,
 }
 ENGINES = [
+    {"name": "xport", "path": "lean/Fbr/Xport.lean lean/Fbr/XportSys.lean lean/Fbr/XportSpec.lean lean/Fbr/Lemmas/Xport*.lean lean/Drv/Xport.lean harness/src/bin/xport.rs harness/src/xscript.rs harness/src/vq.rs",
+     "serves_properties": ["C04", "C17"],
+     "kind_free_text": "Lean 4 model of IoBuffers/Reader/VirtioFsWriter/FuseDevWriter/FileVolatileSlice and the dirty bitmap, refined to a flat address list + cursor, with invariants proved over arbitrary operation lists; differential harness over mock virtqueue chains in GuestMemoryMmap<AtomicBitmap> (page sizes 2/64/4096), a SOCK_SEQPACKET stand-in for /dev/fuse and scripted files with short counts"},
     {"name": "srv", "path": "lean/Fbr/Wire.lean lean/Fbr/Srv.lean lean/Fbr/SrvAsync.lean lean/Fbr/SrvShow.lean lean/Fbr/SrvSpec.lean lean/Fbr/Lemmas/Srv*.lean lean/Fbr/Lemmas/Wire.lean lean/Drv/Srv.lean lean/Drv/SrvAsync.lean harness/src/bin/srv.rs harness/src/scriptfs*.rs harness/src/srvgen.rs harness/src/srvoracle.rs harness/src/vq.rs",
      "serves_properties": ["C01", "C02", "C03", "C12", "C20"],
      "kind_free_text": "Lean 4 model of Server::handle_message / async_handle_message with invariant, decode, encode and equivalence theorems; differential harness over both transports with a scripted logging file system and independent request encoders / reply decoders"},
